@@ -5,7 +5,7 @@
     source) + deterministic driver differential on the real supervisor + e2e monitor. *)
 From Coq Require Import ZArith Bool List Lia.
 From GoSecs Require Import Base.GoInt Gen.Gen Gen.BridgeSupervisor
-  Hsms.Supervisor Hsms.SupervisorProofs Hsms.SupervisorQuiescent.
+  Hsms.Supervisor Hsms.SupervisorProofs Hsms.SupervisorQuiescent Hsms.SupervisorNoReplay.
 Import ListNotations.
 
 (** For EVERY interleaving of commits, injected events, supervisor half-steps (so commits may land
@@ -37,40 +37,34 @@ Theorem C05_drained : forall acts,
 Proof. exact drained_sees_last_reported. Qed.
 Print Assumptions C05_drained.
 
-(** "Never undone or replayed by later internal processing of an earlier event" is REFUTED by the
-    faithful model of the current code: three commits made while the supervisor lags (TCP up,
-    select, deselect — a peer that pipelines Select.req and Deselect.req), then the three echo
-    events are processed: the stale select-accepted echo re-stores Selected over the committed
-    NotSelected and the select-lost echo is then abandoned. State() ends Selected for a deselected
-    session. Recorded as a known finding (known_findings.json), reproduced on the real supervisor
-    by the harness on every run. *)
+(** "Never undone or replayed by the library's later internal processing of an earlier event":
+    in EVERY run, processing a commit echo never changes State() — State() changes only at a commit
+    (its cause: TCP up, select completed, select lost) or at the step of a disconnect / T7 expiry /
+    close. (Before fix commit "supervisor: a lagging supervisor replayed or undid synchronous state
+    commits" this statement was refuted by [replay_witness]; the witness is kept as a regression
+    example and in the harness corpus.) *)
+Theorem C05_no_replay : forall acts, ok_no_replay (snd (run init acts)) = true.
+Proof. exact (fun acts => no_replay acts init). Qed.
+Print Assumptions C05_no_replay.
+
+(** A disconnect / T7 expiry injected before the current connection's TCP-up commit (its echo is
+    still queued behind the event: FIFO) is ignored — it cannot undo the newer connection. *)
+Theorem C05_stale_event_ignored : forall s ev cur,
+  (ev = EvDisconnect \/ ev = EvT7) -> existsb is_upc (queue s) = true ->
+  let s' := fst (step_finish s ev cur) in
+  st s' = st s /\ lastr s' = lastr s /\ closed s' = closed s /\ nbuf s' = nbuf s /\ snd (step_finish s ev cur) = [].
+Proof. exact stale_event_ignored. Qed.
+Print Assumptions C05_stale_event_ignored.
+
 Definition replay_witness : list action :=
   [CommitConnected; CommitSelected; CommitSelectLost;
    StepLoad; StepFinish; StepLoad; StepFinish; StepLoad; StepFinish].
 
-Theorem C05_no_replay_refuted :
-  exists acts, ok_no_replay (snd (run init acts)) = false /\
-               st (fst (run init acts)) = SEL /\ queue (fst (run init acts)) = [].
-Proof. exists replay_witness. vm_compute. repeat split. Qed.
-Print Assumptions C05_no_replay_refuted.
-
-(** What does hold for echoes in every run: an echo processed while the state it announces is
-    still current changes nothing (so without supervisor lag no replay happens). *)
-Lemma echo_current_no_change s ev :
-  is_echo ev = true -> st s = target ev ->
-  st (fst (step_finish s ev (st s))) = st s /\ ok_no_replay (snd (step_finish s ev (st s))) = true.
-Proof.
-  intros He Hs. destruct s as [st0 cl q p l c nb d]. cbn [st] in *. subst st0.
-  unfold step_finish. cbn [st clbit queue pc lastr closed nbuf dropped].
-  destruct ev; try discriminate He; destruct l, cl; cbn; unfold fire, emit_buf; cbn [fst snd];
-    try (destruct (Nat.ltb (length nb) notify_cap); [|destruct nb as [|[? ?] ?]]); cbn; split; reflexivity.
-Qed.
-
-Theorem C05_no_replay_partial : forall s ev,
-  is_echo ev = true -> st s = target ev ->
-  st (fst (step_finish s ev (st s))) = st s /\ ok_no_replay (snd (step_finish s ev (st s))) = true.
-Proof. exact echo_current_no_change. Qed.
-Print Assumptions C05_no_replay_partial.
+(** The schedule that used to end Selected now ends NotSelected, reported as such. *)
+Example C05_replay_witness_now_correct :
+  st (fst (run init replay_witness)) = NS /\ lastr (fst (run init replay_witness)) = NS /\
+  queue (fst (run init replay_witness)) = [].
+Proof. vm_compute. repeat split. Qed.
 
 (** The transition table used by the model IS the current source's table. *)
 Theorem C05_bridge_transition : forall c e,
